@@ -7,5 +7,6 @@ export GOFLAGS=-mod=mod GOPROXY=off GOSUMDB=off GOTOOLCHAIN=local
 mkdir -p build coq/gen evidence
 cp /repo/go.sum harness/go.sum
 (cd harness && CGO_ENABLED=0 go build -tags verif -o ../build/panharness .)
+python3 -c "import sys; sys.path.insert(0, \"tools\"); import pv; pv.write_coq_project()"
 (cd coq && coq_makefile -f _CoqProject -o Makefile && timeout 3000 make -j16)
 echo setup done
